@@ -68,7 +68,7 @@ PROPS = {
             "RSA / SHA are not modelled: C04_redirect_query states that an independent verifier recovers exactly the signed octets, the algorithm URI and the signature bytes from the query sent; that rsa.VerifyPKCS1v15 then accepts is the law verify(pk, m, sign(sk, m)) of the scheme, observed with real keys on every redirect reply",
             "Lib.Url (QueryUnescape, the saml-bindings 3.4.4.1 verifier over the raw query) is written from the specification; it is compared on every run with net/url and with the harness's independent Go verifier (`lib qunesc`, `lib rverify`), also on the queries the real BuildRedirectQuery assembles from random values",
             "enveloped XML-DSig: signing is done by amdonov/xmlsig v0.1.0 and verification by goxmldsig v1.4.0 + etree (pinned: C04_source_current); the theorems cover only the rendering of text nodes and attribute values by both sides (Lib.C14n, compared with etree's canonical writer and with the digest xmlsig computes over a marker element: `lib c14n`); namespace handling, attribute ordering and the rest of the two canonicalisers are sampled through goxmldsig's verdict on every emitted assertion / metadata document, which must agree case by case with the model's prediction (verifies iff every signed text and attribute value is free of the special characters)",
-            "createRedirectSignature is translated (standalone): C04.createRedirectSignature_signs - a returned signature is base64 of what signature.CreateRedirect produced over exactly C04.signedOctets (BuildRedirectQuery of the deflated message, RelayState and algorithm), the returned algorithm is the configured one; createSignature and sendBackResponse are translated too (CallbackGen, SendBack); createPostSignature and the metadata signature are oracles of the translated callers (fingerprints: C04_source_current)",
+            "createRedirectSignature is translated (standalone): C04.createRedirectSignature_signs - a returned signature is base64 of what signature.CreateRedirect produced over exactly C04.signedOctets (BuildRedirectQuery of the deflated message, RelayState and algorithm), the returned algorithm is the configured one; createSignature and sendBackResponse are translated too (CallbackGen, SendBack); createPostSignature is translated standalone as well (PostSignGen.createPostSignature_signs: signer from exactly the certificate, key and algorithm handed in, signature.Create over the assertion as handed in, stored in that assertion, nothing else changed; callers keep the oracle of the same name) and the metadata signature is covered by MetadataGen.C11_generated_signed_iff_configured; signature.Create / GetSigner / xml.Marshal stay fingerprinted (C04_source_current)",
         ],
         "assumptions": ["the certificate the IdP publishes is the one GetResponseSigningKey returns (C11_one_certificate); signed metadata is verified against the published certificate, the harness storage uses one key pair for responses and metadata",
                         "a registered consumer URL contains no '#' (a fragment would swallow the query); URLs with an own query are covered by C04_redirect_url_with_query under the stated hypothesis that they do not themselves carry a SAMLResponse / RelayState / SigAlg / Signature parameter"],
